@@ -129,6 +129,35 @@ Proof.
   unfold wrap_is_fe. rewrite andb_true_iff, Nat.leb_le, list_eqb_eq. tauto.
 Qed.
 
+(* the operation's (Ne, nPg) on the non-elementwise paths (np.matmul gufunc, np.einsum, np.where,
+   dot, ddot) is the numpy broadcast of the FeArray operands' finite element axes, for ANY two
+   leading shapes -- (Ne,1) against (1,nPg) included, where it equals neither operand's -- and the
+   result is a FeArray on exactly those axes *)
+Definition C12_einsum_is_fe_on_broadcast_axes := einsum2_is_fe.
+Definition C12_where_is_fe_on_broadcast_axes := where_is_fe.
+Definition C12_matmul_type := matmul_type.
+Definition C12_dot_type := dot_type.
+Definition C12_ddot_type := ddot_type.
+Print Assumptions einsum2_is_fe.
+Print Assumptions where_is_fe.
+Print Assumptions matmul_type.
+Print Assumptions ddot_type.
+
+Example per_element_times_per_point :
+  (* A : (Ne=2, 1, 2, 2) one matrix per element, B : (1, nPg=3, 2, 2) one per Gauss point *)
+  let A := feZ [2; 1; 2; 2] [1; 2; 3; 4; 0; 1; 1; 0]%Z in
+  let B := feZ [1; 3; 2; 2] [1; 0; 0; 1; 2; 0; 0; 2; 0; 1; 1; 1]%Z in
+  fe_shape_of Q [A; B] = Some [2; 3] /\
+  fst (observeQ d0 i0 (EMatmul Q A B)) = (1, [2; 3; 2; 2]) /\
+  snd (observeQ d0 i0 (EMatmul Q A B)) =
+    map inject_Z [1;2;3;4; 2;4;6;8; 2;3;4;7;  0;1;1;0; 0;2;2;0; 1;1;0;1]%Z /\
+  fst (observeQ d0 i0 (EEinsum Q [([0; 1], A); ([1; 2], B)] [0; 2])) = (1, [2; 3; 2; 2]) /\
+  fst (observeQ d0 i0 (EWhere Q (feZ [2; 1; 2] [1; 0; 0; 1]%Z) (feZ [1; 3; 2] [1; 2; 3; 4; 5; 6]%Z) (scZ 0))) = (1, [2; 3; 2]).
+Proof. repeat split; vm_compute; reflexivity. Qed.
+
+Example wrap_hyp_satisfiable : np_bcast [2; 1] [1; 3] = Some [2; 3] /\ np_bcast [2; 3] [1; 1] = Some [2; 3].
+Proof. split; reflexivity. Qed.
+
 Theorem C12_shape_of_aligned_ufunc Ne nPg s t :
   ufunc_shape [(KFe, Ne :: nPg :: s); (KPlain, t)] = option_map (fun u => Ne :: nPg :: u) (np_bcast s t)
   /\ ufunc_shape [(KPlain, t); (KFe, Ne :: nPg :: s)] = option_map (fun u => Ne :: nPg :: u) (np_bcast t s).
